@@ -191,6 +191,7 @@ type ProcCase struct {
 	Hold     int      `json:"hold"` // 0: answer at once in arrival order, 1: plan decides per request, 2: always hold until quiescence
 	ExtraObs int      `json:"extraObs,omitempty"`
 	SlowObsMs int     `json:"slowObsMs,omitempty"` // extra observers let this much simulated time pass per trace (slow consumer: back-pressure on the tracer)
+	SlowAll  bool     `json:"slowAll,omitempty"` // ... per trace of any kind (otherwise only per EventObservedTrace)
 	Events   []EvPlan `json:"events,omitempty"`
 	CancelAt int      `json:"cancelAt,omitempty"` // cancel when this many traces were observed (0 = never)
 	NoAnswer map[string]bool `json:"noAnswer,omitempty"`
@@ -403,7 +404,7 @@ func (c *ProcCase) Main() {
 			for tr := range ch {
 				k, a, b := describe(tracing.Unwrap(tr))
 				L.AddG(gi, "o:"+k, a, b, 0)
-				if c.SlowObsMs > 0 && k == "eventobserved" {
+				if c.SlowObsMs > 0 && (k == "eventobserved" || c.SlowAll) {
 					// hold the tracer (and through it the catch event's run loop) up while events keep arriving
 					env.fault("slow-subscriber")
 					select {
@@ -506,11 +507,23 @@ func (c *ProcCase) Main() {
 				hold = false
 			}
 			if hold {
-				// a fake-time timer fires only when every goroutine is blocked: the engine has quiesced
-				select {
-				case <-time.After(time.Millisecond):
-				case <-stop:
-					return
+				// a fake-time timer fires only when every goroutine is blocked: the engine has quiesced. With a
+				// slow subscriber "blocked" includes its pauses, during which the engine is held up and not at
+				// rest: wait longer than a pause, until a whole such period passed without anything being logged
+				period := time.Millisecond
+				if c.SlowObsMs > 0 {
+					period = time.Duration(c.SlowObsMs+1) * time.Millisecond
+				}
+				for {
+					before := L.Len()
+					select {
+					case <-time.After(period):
+					case <-stop:
+						return
+					}
+					if c.SlowObsMs == 0 || L.Len() == before {
+						break
+					}
 				}
 				drain()
 			}
